@@ -274,6 +274,9 @@ def method_calls_on_attr(m, attr, methods, prefix='pytableaux'):
 _SITES = {}
 
 
+_NAME_SITES = {}
+
+
 def helper_closure(m, module, cls_qual, owners):
     """Methods of class `cls_qual` (module `module`) that are private helpers of the `owners`: every call site of the
     method's name anywhere in the package (`<x>.<name>(...)`) lies inside an owner or inside another such helper.
@@ -292,6 +295,17 @@ def helper_closure(m, module, cls_qual, owners):
                     sites.setdefault(f.attr, []).append((mod, qn))
         _SITES.clear()
         _SITES[id(m)] = sites
+    # private module-level functions of the same module, called by bare name
+    modlevel = {qn for qn in fns if '.' not in qn and qn.startswith('_') and not qn.startswith('__')}
+    nsites = _NAME_SITES.get(id(m))
+    if nsites is None:
+        nsites = {}
+        for mod, qn, fn in iter_functions(m):
+            for c in calls(fn, nested=False):
+                if isinstance(c.func, ast.Name):
+                    nsites.setdefault((mod, c.func.id), []).append(qn)
+        _NAME_SITES.clear()
+        _NAME_SITES[id(m)] = nsites
     changed = True
     while changed:
         changed = False
@@ -301,6 +315,11 @@ def helper_closure(m, module, cls_qual, owners):
                 continue
             ss = sites.get(name, [])
             if ss and all(mod == module and caller in ok for mod, caller in ss):
+                ok.add(qn)
+                changed = True
+        for qn in sorted(modlevel - ok):
+            callers = nsites.get((module, qn), [])
+            if callers and all(c_ in ok for c_ in callers):
                 ok.add(qn)
                 changed = True
     return ok
